@@ -283,8 +283,22 @@ func Flatten(v any) []uint64 {
 				walk(rv.Index(i), depth+1)
 			}
 		case reflect.Pointer:
-			if !rv.IsNil() {
+			if rv.IsNil() {
+				out = append(out, 0)
+			} else {
+				out = append(out, 1)
 				walk(rv.Elem(), depth+1)
+			}
+		case reflect.Slice:
+			out = append(out, uint64(rv.Len()))
+			for i := 0; i < rv.Len(); i++ {
+				walk(rv.Index(i), depth+1)
+			}
+		case reflect.String:
+			s := rv.String()
+			out = append(out, uint64(len(s)))
+			for i := 0; i < len(s); i++ {
+				out = append(out, uint64(s[i]))
 			}
 		}
 	}
@@ -328,4 +342,19 @@ func setField(rv reflect.Value, f func(reflect.Value)) {
 	}
 	// unexported field of an addressable struct
 	f(reflect.NewAt(rv.Type(), rv.Addr().UnsafePointer()).Elem())
+}
+
+var allocMark uint64
+
+// AllocMark / AllocWithin: natively the bytes allocated since the mark (runtime.MemStats.TotalAlloc).
+func AllocMark() {
+	var m runtime.MemStats
+	runtime.ReadMemStats(&m)
+	allocMark = m.TotalAlloc
+}
+
+func AllocWithin(limit int) bool {
+	var m runtime.MemStats
+	runtime.ReadMemStats(&m)
+	return m.TotalAlloc-allocMark <= uint64(limit)
 }
